@@ -39,7 +39,7 @@ for sid, c in sorted(cat.items()):
         "patch": "patch.diff (applies to /repo HEAD %s%s)" % (head.group(1) if head else "?", "; patch.orig.diff is the sub-agent's original, made before hook H10 touched the same lines" if os.path.exists(os.path.join(d, "patch.orig.diff")) else ""),
         "demonstration": {"file": demo[0].strip(), "command": demo[1].strip() if len(demo) > 1 else "",
                           "exit_on_unchanged_tree": int(m.group(1)) if m else None, "exit_with_change": int(m.group(2)) if m else None},
-        "existing_suite_with_change": {"command": "cargo nextest run %s --no-fail-fast --test-threads 8 --retries 2 --offline" % (scope.group(1).split(" (")[0] if scope else "--workspace"),
+        "existing_suite_with_change": {"command": "cargo nextest run %s --no-fail-fast --test-threads 8 --retries 3 --offline" % (scope.group(1).split(" (")[0] if scope else "--workspace"),
                                        "result": summ.group(1).strip() if summ else "not run"},
         "checks_run_against_it": detections,
         "caught_by": c.get("caught_by", ""),
